@@ -3,4 +3,5 @@ CONSTANTS TS <- TS2 W = 2 H = 3 FillMode = FALSE
 INVARIANT Correct
 INVARIANT WrittenOnce
 INVARIANT InBuffer
+INVARIANT StepsAgree
 CHECK_DEADLOCK FALSE
